@@ -332,44 +332,59 @@ structure Variant where
 def fixedV : Variant := ⟨true, true, true, true⟩
 def origV : Variant := ⟨false, false, false, false⟩
 
+/-- `optionLength := ip.getIPv4OptionSize()` in the variant at hand. -/
+def optionLengthOf (v : Variant) (l : Layer) : Nat :=
+  if v.intSize then optionSize { l with padding := if v.writePadding then l.padding else [] }
+  else Orig.optionSize l
+
+/-- The FixLengths block: `ip.IHL = 5 + optionLength/4; ip.Length = uint16(len(b.Bytes()))`. -/
+def fixLen (l : Layer) (optionLength total : Nat) (fix : Bool) : Layer :=
+  if fix then { l with ihl := (5 + (optionLength / 4) % 256) % 256, length := total % 65536 } else l
+
+/-- The stores of SerializeTo up to the call of AddressTo4. -/
+def serFixed (l1 : Layer) (bytes : Sl) : Res Sl := do
+  let s ← bytes.set 0 (u8 (((l1.version % 256) * 16) % 256 ||| (l1.ihl % 256)))
+  let s ← s.set 1 (u8 l1.tos)
+  let s ← s.putBe16 2 (l1.length % 65536)
+  let s ← s.putBe16 4 (l1.id % 65536)
+  let s ← s.putBe16 6 (flagsfrags l1)
+  let s ← s.set 8 (u8 l1.ttl)
+  s.set 9 (u8 l1.protocol)
+
+/-- SerializeTo after a successful AddressTo4 (`l2` has the 4-byte addresses). -/
+def serBody (v : Variant) (l2 : Layer) (s : Sl) (csum : Bool) : Res (Sl × Layer) := do
+  let s ← s.copyAt 12 16 l2.srcIP
+  let s ← s.copyAt 16 20 l2.dstIP
+  let s ← if v.clearOpts then s.clearFrom 20 else pure s
+  let (s, cur) ← serOpts v.checkFirst l2.options s 20
+  let s ← if v.writePadding then s.copyFrom cur l2.padding else pure s
+  let (s, l3) ← (if csum then do
+      let s ← s.set 10 0
+      let s ← s.set 11 0
+      let c := Cksum.compute s.bytes 0
+      pure (s, { l2 with checksum := Cksum.fold c })
+    else pure (s, l2) : Res (Sl × Layer))
+  let s ← s.putBe16 10 (l3.checksum % 65536)
+  pure (s, l3)
+
 /-- IPv4.SerializeTo over the C18 buffer model.  Returns the buffer and the MUTATED layer
     (IHL/Length under FixLengths, SrcIP/DstIP by AddressTo4, Checksum under ComputeChecksums).
     `bytes` (the slice returned by PrependBytes) aliases the buffer's array from the new start
     to the end of its capacity; all stores go through it and are committed at the end. -/
 def serializeWith (v : Variant) (l : Layer) (b : SBuf.SBuf) (fix csum : Bool) : Res (SBuf.SBuf × Layer) :=
-  let optionLength := if v.intSize then optionSize { l with padding := if v.writePadding then l.padding else [] }
-                      else Orig.optionSize l
+  let optionLength := optionLengthOf v l
   if v.intSize ∧ optionLength > 40 then .err "options too long"
   else
-    let (b1, w) := SBuf.prepend b (20 + optionLength)
-    let bytes : Sl := ⟨b1.mem.drop w.off, w.n⟩
-    let l1 := if fix then { l with ihl := (5 + (optionLength / 4) % 256) % 256,
-                                   length := (b1.len - b1.start) % 65536 } else l
+    let r := SBuf.prepend b (20 + optionLength)
+    let bytes : Sl := ⟨r.1.mem.drop r.2.off, r.2.n⟩
+    let l1 := fixLen l optionLength (r.1.len - r.1.start) fix
     do
-      let s ← bytes.set 0 (u8 (((l1.version % 256) * 16) % 256 ||| (l1.ihl % 256)))
-      let s ← s.set 1 (u8 l1.tos)
-      let s ← s.putBe16 2 (l1.length % 65536)
-      let s ← s.putBe16 4 (l1.id % 65536)
-      let s ← s.putBe16 6 (flagsfrags l1)
-      let s ← s.set 8 (u8 l1.ttl)
-      let s ← s.set 9 (u8 l1.protocol)
+      let s ← serFixed l1 bytes
       -- AddressTo4
       match to4 l1.srcIP, to4 l1.dstIP with
       | some src, some dst =>
-        let l2 := { l1 with srcIP := src, dstIP := dst }
-        let s ← s.copyAt 12 16 l2.srcIP
-        let s ← s.copyAt 16 20 l2.dstIP
-        let s ← if v.clearOpts then s.clearFrom 20 else pure s
-        let (s, cur) ← serOpts v.checkFirst l2.options s 20
-        let s ← if v.writePadding then s.copyFrom cur l2.padding else pure s
-        let (s, l3) ← (if csum then do
-            let s ← s.set 10 0
-            let s ← s.set 11 0
-            let c := Cksum.compute s.bytes 0
-            pure (s, { l2 with checksum := Cksum.fold c })
-          else pure (s, l2) : Res (Sl × Layer))
-        let s ← s.putBe16 10 (l3.checksum % 65536)
-        pure ({ b1 with mem := b1.mem.take w.off ++ s.arr }, l3)
+        let (s, l3) ← serBody v { l1 with srcIP := src, dstIP := dst } s csum
+        pure ({ r.1 with mem := r.1.mem.take r.2.off ++ s.arr }, l3)
       | _, _ => .err "address"
 
 def serializeIp4 (l : Layer) (b : SBuf.SBuf) (fix csum : Bool) : Res (SBuf.SBuf × Layer) :=
